@@ -724,6 +724,87 @@ func (m *cacheModel) opPerNode(step int, st scn.Step) string {
 	return fmt.Sprintf("judged %d of %d", judged, len(els))
 }
 
+// PNodeTexts: expressions compiled once per goroutine run and shared by the
+// tasks; their pattern is only known at evaluation time (an attribute of the
+// context node), so one call site sees different patterns from different
+// goroutines at once.
+var PNodeTexts = []string{"matches(@k, string(@p))", "replace(@k, string(@p), '<$1>')"}
+
+// opPNode: one task applies a shared expression to one element.
+func (m *cacheModel) opPNode(step int, st scn.Step, owner int32) string {
+	x := m.x
+	if len(x.docs) == 0 || len(x.pnode) == 0 {
+		return "no-doc"
+	}
+	which := st.C % len(x.pnode)
+	ex := x.pnode[which]
+	if ex == nil {
+		return "cerr"
+	}
+	doc := x.docs[0]
+	var els []*world.Node
+	for _, n := range doc.Nodes {
+		if n.Kind == xpath.ElementNode && n.Parent != nil && n.Parent.Kind == xpath.ElementNode {
+			els = append(els, n)
+		}
+	}
+	if len(els) == 0 {
+		return "no-rows"
+	}
+	n := els[st.N%len(els)]
+	var k, p *world.Node
+	for _, a := range n.Attrs {
+		if a.Prefix == "" && a.Local == "k" {
+			k = a
+		}
+		if a.Prefix == "" && a.Local == "p" {
+			p = a
+		}
+	}
+	got, it := evaluate(ex, world.NewNav(doc, n.ID, owner))
+	if it != nil {
+		got = drain(it, 0)
+	}
+	if k == nil || p == nil {
+		return "unjudged"
+	}
+	subject := k.Data
+	re, err := regexp.Compile(p.Data)
+	if err != nil {
+		return "invalid" // a pattern only known at run time that does not compile: nothing promised
+	}
+	if got.Aborted() {
+		if strings.Contains(got.Key(), "race-cutoff") {
+			return "cut-off"
+		}
+		kind := "no-progress"
+		if strings.Contains(got.V, "deadlock") {
+			kind = "deadlock"
+			x.stop = true
+		}
+		x.viol(kind, kind+":regex", fmt.Sprintf("Evaluate(%q) from node %d: %s", PNodeTexts[which], n.ID, got.Key()), step)
+		return "abort"
+	}
+	if got.Kind == "perr" && strings.Contains(got.V, errInjected.Error()) {
+		x.countFault("shared-injected-failure")
+		return "failed-shared"
+	}
+	var want Outcome
+	if which == 0 {
+		want = valueOutcome(re.MatchString(subject))
+	} else {
+		if !replInDomain("<$1>", re.NumSubexp()) {
+			return "unjudged:" + got.Key()
+		}
+		want = valueOutcome(re.ReplaceAllString(subject, expandRepl("<$1>")))
+	}
+	if got.Key() != want.Key() {
+		x.viol("regex-result", "regex-result:per-node", fmt.Sprintf("a shared Evaluate(%q) from node %d (subject %q, pattern %q) = %s, Go regexp gives %s", PNodeTexts[which], n.ID, subject, p.Data, clip(got.Key()), clip(want.Key())), step)
+		return "mismatch"
+	}
+	return got.Key()
+}
+
 // opNoise evaluates an expression that uses the builder pool and / or ends in
 // one of the package's own panics half-way. Its result is not judged: it is
 // history for the regex operations that follow.
